@@ -97,38 +97,35 @@ def run_impl(cases):
 
 
 def opted_map(case):
-    """occurrence id -> (tracer allows re-entrant events and handler registered reentrant)"""
+    """occurrence id -> (inside a region opened by a running handler, tracer allows re-entrant events, handler registered reentrant)"""
     m = {}
 
-    def walk(n):
+    def walk(n, in_region):
         if n["k"] == "em":
             for t, hs in zip(case["tracers"], n["tracers"]):
                 for hre, h in zip(t["handlers"], hs):
-                    m[h["id"]] = bool(t["allow_re"] and hre)
+                    m[h["id"]] = (in_region, bool(t["allow_re"]), bool(hre))
                     for a in h["acts"]:
-                        walk(a)
+                        walk(a, in_region)
         else:
             for a in n["acts"]:
-                walk(a)
+                walk(a, in_region or n["k"] == "region")
 
     for t in case["tops"]:
-        walk(t)
+        walk(t, False)
     return m
 
 
-def has_region(case):
-    return '"region"' in json.dumps(case)
-
-
 def oracle_case(case, im):
-    """the property itself: nesting depth of handlers that did not opt in never exceeds one; switches restored"""
+    """the property itself: an invocation that happens while another handler is running must be explicitly opted in
+    (inside an allow_reentrant_event_handling() region, or on a tracer / handler marked reentrant); switches restored"""
     if "crash" in im:
         return {"what": "harness crashed: " + im["crash"], "tb": im.get("tb")}
     om = opted_map(case)
-    reg = has_region(case)
     for d, hid in im["log"]:
-        if d >= 1 and not om[hid] and not reg:
-            return {"what": "ordinary handler (occurrence %d) invoked while %d handler(s) already running" % (hid, d), "observed_log": im["log"]}
+        if d >= 1 and not any(om[hid]):
+            return {"what": "ordinary handler (occurrence %d: no region around it, tracer and handler not reentrant) invoked while "
+                            "%d handler(s) already running" % (hid, d), "observed_log": im["log"]}
     for f in im["flags"]:
         if f != [True, False]:
             return {"what": "switches after a top-level emission are %s, expected [True, False]" % f, "observed": im["flags"]}
